@@ -242,7 +242,7 @@ def tmp_names(events):
 def run(ctx):
     scs = scenarios(ctx.thorough)
     # 1. design model
-    ctx.model("AtomicWrite", constants={"MaxFaults": 2}, invariants=["Atomic", "ErrorClean", "SuccessExact", "TypeOK"],
+    ctx.model("AtomicWrite", constants={"MaxFaults": 2}, invariants=["Atomic", "ErrorClean", "SuccessExact", "DurableInstall", "TypeOK"],
               required_actions=["Step", "Fault", "Die"])
     # 2. healthy runs: observe the call sequence and the new canonical text of each scenario
     healthy = engine.parallel_map(job, [(sc, {}, None, False) for sc in scs], chunk=4)
